@@ -43,11 +43,19 @@ class Problem(Exception):
         self.stage, self.what, self.detail = stage, what, detail
 
 
-def snap(binary, root, cmd, *args, timeout=120):
+SHIM = [None]
+
+
+def snap(binary, root, cmd, *args, timeout=120, short=0):
+    """short: every pread on a file of the array returns at most that many bytes (a legal behaviour of read calls: the tool has
+    to ask again for the rest)"""
     log = os.path.join(root, "log.%s" % cmd)
     argv = [binary, "-c", os.path.join(root, "snapraid.conf")] + FLAGS + ["-l", log, cmd] + list(args)
+    env = None
+    if short:
+        env = dict(os.environ, LD_PRELOAD=SHIM[0], VSHIM_ROOT=root, VSHIM_RULES="pread,*,0,shortread,%d" % short)
     try:
-        p = subprocess.run(argv, stdout=subprocess.PIPE, stderr=subprocess.PIPE, timeout=timeout)
+        p = subprocess.run(argv, stdout=subprocess.PIPE, stderr=subprocess.PIPE, timeout=timeout, env=env)
         rc, out, err = p.returncode, p.stdout, p.stderr
     except subprocess.TimeoutExpired as e:
         rc, out, err = -999, e.stdout or b"", e.stderr or b""
@@ -136,6 +144,9 @@ class ArrayCase:
         self.proj_ino = gl.project(self.cs, with_inode=True)
         self.scratch = scratch
         self.n = 0
+        # an array whose split layout has an empty file in front of a used one: the disk of that file is still full (the room
+        # of the parity disks is what it was when the reference wrote the array)
+        self.room = ["--test-parity-limit", str(self.man["parity_limit"])] if self.man.get("spec", {}).get("gap") else []
 
     def copy(self, tag, order=0):
         """order: the lines of the configuration file in the order of the reference (0), with the parity lines reversed (1: e.g.
@@ -273,6 +284,10 @@ class ArrayCase:
             # (the paths of the parity files recorded in 'Q' records follow the configuration and are not compared)
             a = self.proj_ino if with_inode else self.proj
             b = gl.project(cs, with_inode=with_inode)
+            if self.cs["version"] == 1:
+                # the first format has no parity records; a re-saved file has them
+                a = dict(a, parity=None)
+                b = dict(b, parity=None)
             if a != b:
                 raise Problem(stage, "content file %s no longer carries the reference state: %s"
                               % (rel, "; ".join(gl.diff_paths(a, b)[:4])))
@@ -319,7 +334,7 @@ class ArrayCase:
                 else:
                     for s in man["parity"][int(dev[1:])]:
                         os.remove(os.path.join(root, s["path"]))
-            r = snap(self.binary, root, "fix")
+            r = snap(self.binary, root, "fix", *self.room)
             cnt[0] += 1
             if r.rc != 0:
                 raise Problem("fix", "fix after losing %s: exit code %s" % (",".join(lost), r.rc), tail(r))
@@ -338,6 +353,60 @@ class ArrayCase:
             return cnt[0]
         finally:
             shutil.rmtree(root, ignore_errors=True)
+
+
+def outcome_fix(case, dev):
+    """an array the reference left with an unfinished sync loses a data disk: fix must end as the fix of the reference did (exit
+    status and every file of every disk), from the same files"""
+    cnt = [0]
+    man = case.man
+    want = man["fix_outcomes"][dev]
+    case.n += 1
+    root = case.copy("ofix-" + dev, order=case.n % 3)
+    try:
+        p = os.path.join(root, man["disks"][int(dev[1:])])
+        shutil.rmtree(p)
+        os.makedirs(p)
+        r = snap(case.binary, root, "fix", *case.room)
+        cnt[0] += 1
+        if (r.rc == 0) != (want["rc"] == 0):
+            raise Problem("fix", "fix after losing %s of the array left with an unfinished sync: exit code %s, the reference ended with %s"
+                          % (dev, r.rc, want["rc"]), tail(r))
+        d = compare_data(root, dict(man, data=want["data"]), cnt)
+        # what could not be rebuilt is left as <name>.unrecoverable with the time of the run: not a part of the result
+        d = [x for x in d if not (".unrecoverable'" in x and x.split(": ", 1)[1].startswith("mtime_ns ") and "," not in x.split(": ", 1)[1])]
+        if d:
+            raise Problem("fix", "after losing %s and fix, the files differ from what the reference rebuilt: %s"
+                          % (dev, "; ".join(d[:4])), tail(r))
+        return cnt[0]
+    finally:
+        shutil.rmtree(root, ignore_errors=True)
+
+
+def short_reads(case, n):
+    """the reference array verifies, and a lost data disk is rebuilt, when every read call returns at most n bytes"""
+    cnt = [0]
+    man = case.man
+    case.n += 1
+    root = case.copy("short%d" % n, order=case.n % 3)
+    try:
+        r = snap(case.binary, root, "check", *(["-a"] if man.get("interrupted") else []), short=n)
+        cnt[0] += 1
+        expect_rc0(r, "load", "check with read calls returning at most %d bytes" % n)
+        if not man.get("interrupted"):
+            p = os.path.join(root, man["disks"][0])
+            shutil.rmtree(p)
+            os.makedirs(p)
+            r = snap(case.binary, root, "fix", *case.room, short=n)
+            cnt[0] += 1
+            if r.rc != 0:
+                raise Problem("fix", "fix after losing d0, read calls returning at most %d bytes: exit code %s" % (n, r.rc), tail(r))
+            d = compare_data(root, man, cnt) + compare_parity(root, man, cnt)
+            if d:
+                raise Problem("fix", "after losing d0 and fix with short reads, the array differs from the reference: %s" % "; ".join(d[:4]), tail(r))
+        return cnt[0]
+    finally:
+        shutil.rmtree(root, ignore_errors=True)
 
 
 def loss_subsets(case, tier, rnd):
@@ -434,6 +503,7 @@ def run(tier):
     v = vlib.Verdict("C16", tier, "translation_validation")
     idx = check_integrity()
     binary = vlib.build("hooks")
+    SHIM[0] = vlib.build_shim()
     rnd = random.Random(vlib.seed())
     t0 = time.time()
     stats, samples, skips = run_vectors(v)
@@ -457,8 +527,13 @@ def run(tier):
             items += sum(len(c.man["data"][dn]) for dn in c.man["disks"]) + sum(len(l) for l in c.man["parity"]) + 1
             jobs.append((c, "load", None))
             jobs.append((c, "rewrite", None))
+            if tier == "thorough" or len(jobs) % 3 == 0 or c.man.get("interrupted"):
+                jobs.append((c, "short", (rnd.choice([600, 1, 1000, 4095]),)))
             if c.man.get("interrupted"):
-                continue               # recovery of an array with an unfinished sync is C05/C07's subject
+                # recovery of an array with an unfinished sync is C05/C07's subject; here only: the same result as the reference
+                for dev in sorted(c.man.get("fix_outcomes", {})):
+                    jobs.append((c, "ofix", (dev,)))
+                continue
             subs = loss_subsets(c, tier, rnd)
             for s in subs:
                 jobs.append((c, "fix", s))
@@ -479,6 +554,10 @@ def run(tier):
                 if kind == "rewrite":
                     n, same = c.rewrite()
                     return job, n, None, same
+                if kind == "short":
+                    return job, short_reads(c, lost[0]), None, None
+                if kind == "ofix":
+                    return job, outcome_fix(c, lost[0]), None, None
                 return job, c.lose_fix(lost, rewrite_first=(kind == "rwfix")), None, None
             except Problem as e:
                 return job, 0, e, None
@@ -491,13 +570,13 @@ def run(tier):
             n_scen += 1
             pa = per_array.setdefault(c.name, {"scenarios": 0, "loss_subsets": 0})
             pa["scenarios"] += 1
-            if kind in ("fix", "rwfix"):
+            if kind in ("fix", "rwfix", "ofix"):
                 pa["loss_subsets"] += 1
             if kind == "rwfix":
                 n_rwfix += 1
             if kind == "rewrite" and same:
                 n_rewrite_identical += 1
-            scen = kind if lost is None else (",".join(lost) + ("+rewrite" if kind == "rwfix" else ""))
+            scen = kind if lost is None else ("short:%d" % lost[0]) if kind == "short" else ("ofix:" + lost[0]) if kind == "ofix" else (",".join(lost) + ("+rewrite" if kind == "rwfix" else ""))
             if prob is not None:
                 problems.setdefault((c.name, prob.stage), []).append((scen, prob))
             elif kind == "fix" and len(lost) == c.man["np"]:
@@ -591,6 +670,11 @@ def replay_one(name, scen):
                 c.load()
             elif scen == "rewrite":
                 c.rewrite()
+            elif scen.startswith("ofix:"):
+                outcome_fix(c, scen[5:])
+            elif scen.startswith("short:"):
+                SHIM[0] = vlib.build_shim()
+                short_reads(c, int(scen[6:]))
             else:
                 c.lose_fix(tuple(scen.replace("+rewrite", "").split(",")), rewrite_first=scen.endswith("+rewrite"))
             print("ok: %s [%s] agrees with the reference" % (name, scen))
